@@ -1173,12 +1173,29 @@ func eq(lhs, rhs reflect.Value) bool {
 		return reflect.DeepEqual(lhs.Interface(), rhs.Interface())
 	}
 
+	// Null is equal to null and to nothing else. Note that
+	// nulls can't be compared directly (see below) because a
+	// null literal, a null array item and a null in the input
+	// data are all represented by different reflect.Values.
+	if isNull(lhs) || isNull(rhs) {
+		return isNull(lhs) && isNull(rhs)
+	}
+
 	// All other types (e.g. functions) are
 	// compared directly. Two functions with the same contents
 	// are not considered equal unless they're the same
 	// physical object in memory.
 
 	return lhs == rhs
+}
+
+func isNull(v reflect.Value) bool {
+	switch v = jtypes.Resolve(v); v.Kind() {
+	case reflect.Ptr, reflect.Interface:
+		return v.IsNil()
+	default:
+		return false
+	}
 }
 
 func lt(lhs, rhs reflect.Value) bool {
@@ -1203,10 +1220,6 @@ func lte(lhs, rhs reflect.Value) bool {
 }
 
 func in(lhs, rhs reflect.Value) bool {
-	// TODO: Does not work with null, e.g.
-	//    null in null    // evaluates to false
-	//    null in [null]  // evaluates to false
-
 	rhs = arrayify(rhs)
 
 	for i, N := 0, rhs.Len(); i < N; i++ {
